@@ -762,10 +762,18 @@ fn run_once(c: &FCase) -> FOut {
     FOut { viol, panicked, lies: log.lies.get(), after: log.after_lie.get(), calls: log.calls.get() }
 }
 
+/// `--prop C02`: the same cases, reported for C02 ("no sequence of safe API calls makes the crate read or write outside a live
+/// allocation ... free memory twice ... access memory after it was freed" - calling a safe trait impl that lies is such a sequence).
+/// Only the memory-safety oracles count there; a leak is C17's (and C03's) business, not C02's.
+static C02_MODE: std::sync::atomic::AtomicBool = std::sync::atomic::AtomicBool::new(false);
+
 pub fn run_fcase(c: &FCase) -> FOut {
-    let o = run_once(c);
+    let mut o = run_once(c);
     if matches!(&o.viol, Some((k, _)) if k == "leak") {
-        return run_once(c);
+        o = run_once(c);
+    }
+    if C02_MODE.load(std::sync::atomic::Ordering::Relaxed) && matches!(&o.viol, Some((k, _)) if k == "leak") {
+        o.viol = None;
     }
     o
 }
@@ -814,9 +822,11 @@ pub fn main_fault(args: &Args) -> i32 {
     let workers = args.u64("workers", 1).max(1);
     let cases = args.u64("cases", 10000);
     let mut viols: Vec<Value> = Vec::new();
+    let prop: &'static str = if args.kv.get("prop").map(|s| s.as_str()) == Some("C02") { "C02" } else { "C17" };
+    C02_MODE.store(prop == "C02", std::sync::atomic::Ordering::Relaxed);
     let record = |c: &FCase, o: &FOut, how: &str, viols: &mut Vec<Value>| {
         let (k, d) = o.viol.clone().unwrap();
-        viols.push(json!({"property": "C17", "oracle": k, "detail": d, "op": CONSUMERS[c.consumer as usize % CONSUMERS.len()], "found_by": how, "profile": util::profile_name(), "replay": c.to_json(),
+        viols.push(json!({"property": prop, "oracle": k, "detail": d, "op": CONSUMERS[c.consumer as usize % CONSUMERS.len()], "found_by": how, "profile": util::profile_name(), "replay": c.to_json(),
             "trace": [format!("consumer: {}", CONSUMERS[c.consumer as usize % CONSUMERS.len()]), format!("liar data {} bytes, param {}, script {:?}", c.n % 48, c.param, c.script), format!("calls {} lies told {} calls after first lie {} panicked {}", o.calls, o.lies, o.after, o.panicked)]}));
     };
     if let Some(path) = args.kv.get("replay") {
@@ -939,7 +949,7 @@ pub fn main_fault(args: &Args) -> i32 {
         pc.insert(n.to_string(), json!({"cases": per_consumer[i][0], "a lie was consumed": per_consumer[i][1], "panicked": per_consumer[i][2], "non-trivial": per_consumer[i][3]}));
     }
     let out = json!({
-        "engine": "fault", "property": "C17", "profile": util::profile_name(), "seed": seed, "worker": worker,
+        "engine": "fault", "property": prop, "profile": util::profile_name(), "seed": seed, "worker": worker,
         "evaluations": evals, "nontrivial_distinct_this_worker": nontriv.len(), "exhaustive": exhaustive,
         "histogram": {"per_consumer": pc}, "samples": samples, "violations": viols,
     });
